@@ -553,6 +553,37 @@ func equal(a, b reflect.Value, path string, seen map[[2]unsafe.Pointer]bool, dep
 		if a.Len() != b.Len() {
 			return false, fmt.Sprintf("%s: map len %d != %d", path, a.Len(), b.Len())
 		}
+		if hasPointer(a.Type().Key()) {
+			// keys that contain pointers are never identical between two values: match entries by deep equality
+			bkeys := b.MapKeys()
+			used := make([]bool, len(bkeys))
+			it := a.MapRange()
+			for it.Next() {
+				found := false
+				why := ""
+				for j, bk := range bkeys {
+					if used[j] {
+						continue
+					}
+					if ok, _ := equal(it.Key(), bk, path+"[key]", map[[2]unsafe.Pointer]bool{}, depth+1); !ok {
+						continue
+					}
+					if ok, p := equal(it.Value(), b.MapIndex(bk), fmt.Sprintf("%s[%v]", path, Format(it.Key())), map[[2]unsafe.Pointer]bool{}, depth+1); !ok {
+						why = p
+						continue
+					}
+					used[j], found = true, true
+					break
+				}
+				if !found {
+					if why != "" {
+						return false, why
+					}
+					return false, fmt.Sprintf("%s: key %v missing", path, Format(it.Key()))
+				}
+			}
+			return true, ""
+		}
 		it := a.MapRange()
 		for it.Next() {
 			bv := b.MapIndex(it.Key())
@@ -758,6 +789,23 @@ type Interval struct {
 	Lo, Hi uintptr
 	Path   string
 	Kind   string
+}
+
+// hasPointer reports whether values of t (a map key type) contain pointers.
+func hasPointer(t reflect.Type) bool {
+	switch t.Kind() {
+	case reflect.Ptr, reflect.Interface, reflect.Chan, reflect.UnsafePointer:
+		return true
+	case reflect.Array:
+		return hasPointer(t.Elem())
+	case reflect.Struct:
+		for i := 0; i < t.NumField(); i++ {
+			if hasPointer(t.Field(i).Type) {
+				return true
+			}
+		}
+	}
+	return false
 }
 
 // Addrs collects the mutable memory reachable from v through pointers, slices and maps.
